@@ -1705,19 +1705,38 @@ def rw_extend_literal(func, k):
 
 
 def rw_unpack_name(func, k):
-    """a, b = T   ->   a = T[0] ; b = T[1]        (T a plain name; the values are those of a successful unpacking)"""
+    """a, b = T   ->   a = T[0] ; b = T[1]        (T a plain name; the values are those of a successful unpacking)
+    second form, when a and b are read exactly once, in the statement that follows, and T is not otherwise named there:   a, b = T ; S(a, b)   ->   S(T[0], T[1])"""
     sites = []
     for owner, fld, blk in blocks_of(func):
         for st in blk:
             if isinstance(st, ast.Assign) and len(st.targets) == 1 and isinstance(st.targets[0], ast.Tuple) and 2 <= len(st.targets[0].elts) <= 4 and isinstance(st.value, ast.Name) \
                     and all(isinstance(t, ast.Name) and t.id != st.value.id for t in st.targets[0].elts):
-                sites.append((blk, st))
+                sites.append((blk, st, 'assign'))
+                i = blk.index(st)
+                names = [t.id for t in st.targets[0].elts]
+                if i + 1 < len(blk) and len(set(names)) == len(names) and not isinstance(blk[i + 1], (ast.For, ast.While, ast.If, ast.With, ast.Try, ast.FunctionDef, ast.ClassDef)):
+                    nxt = blk[i + 1]
+                    occ = {n_: [w for w in ast.walk(func) if isinstance(w, ast.Name) and w.id == n_] for n_ in names}
+                    inside = {id(w) for w in ast.walk(nxt)}
+                    deferred = {id(w) for d in ast.walk(nxt) if isinstance(d, (ast.Lambda, ast.GeneratorExp)) for w in ast.walk(d)}
+                    if all(len(o) == 2 and sum(isinstance(w.ctx, ast.Load) and id(w) in inside and id(w) not in deferred for w in o) == 1 for o in occ.values()) \
+                            and not any(isinstance(w, ast.Name) and w.id == st.value.id for w in ast.walk(nxt)):
+                        sites.append((blk, st, 'subst'))
     if k >= len(sites):
         return False
-    blk, st = sites[k]
+    blk, st, how = sites[k]
+    i = blk.index(st)
+    if how == 'subst':
+        nxt = blk[i + 1]
+        for j, t in enumerate(st.targets[0].elts):
+            for w in list(ast.walk(nxt)):
+                if isinstance(w, ast.Name) and w.id == t.id and isinstance(w.ctx, ast.Load):
+                    replace_node(nxt, w, fix(ast.Subscript(value=ast.Name(id=st.value.id, ctx=ast.Load()), slice=ast.Constant(value=j), ctx=ast.Load()), w))
+        del blk[i]
+        return True
     out = [fix(ast.Assign(targets=[ast.Name(id=t.id, ctx=ast.Store())], value=ast.Subscript(value=ast.Name(id=st.value.id, ctx=ast.Load()), slice=ast.Constant(value=j), ctx=ast.Load())), st)
            for j, t in enumerate(st.targets[0].elts)]
-    i = blk.index(st)
     blk[i:i + 1] = out
     return True
 
